@@ -596,3 +596,197 @@ B("C07", "locals-renamed", DIS,
   """                alignments[i_chosen] = unitary_alignment
                 disorders[i_chosen] = disorder
                 i_chosen += 1""")
+
+# =============================================================================================
+# C01 / C02 / C08 / C11  (ILP formulation, decoding, solver branches)
+# =============================================================================================
+REGRESSIONS.append(dict(prop="C01", id="regression/F1-unlabelled-units-crash", patch="7ad1739.diff", rule="R-C01-6"))
+CBC_BEST = "            cp.Problem(cp.Minimize(disorders.T @ x), [A @ x == 1]).solve(solver=cp.CBC)"
+GLPK_BEST = "            cp.Problem(cp.Minimize(disorders.T @ x), [1 <= matmul, matmul <= 1]).solve(solver=cp.GLPK_MI)"
+CBC_SOFT = "            cp.Problem(cp.Minimize(disorders.T @ x), [A @ x >= 1]).solve(solver=cp.CBC)"
+GLPK_SOFT = "            cp.Problem(cp.Minimize(disorders.T @ x), [A @ x >= 1]).solve(solver=cp.GLPK_MI)"
+for prop, rule in (("C01", "R-C01-1"), ("C08", "R-C08-1")):
+    M(prop, "cbc-cover-instead-of-partition", CONT, CBC_BEST,
+      "            cp.Problem(cp.Minimize(disorders.T @ x), [A @ x >= 1]).solve(solver=cp.CBC)", rule)
+    M(prop, "glpk-loses-upper-bound", CONT, GLPK_BEST,
+      "            cp.Problem(cp.Minimize(disorders.T @ x), [1 <= matmul]).solve(solver=cp.GLPK_MI)", rule,
+      "only the fallback back-end returns covers instead of partitions; never executed by the suite here")
+M("C01", "build-A-null-test-wrong", NUM, "            if unit_id != sizes[annotator_id]:  # Non-null unit",
+  "            if unit_id < sizes[annotator_id] - 1:  # Non-null unit", "R-C01-2")
+M("C01", "offset-only-for-real-units", NUM,
+  """                A[annotator_units_start + unit_id, p_id] = 1
+            annotator_units_start += sizes[annotator_id]""",
+  """                A[annotator_units_start + unit_id, p_id] = 1
+                annotator_units_start += sizes[annotator_id]""", "R-C01-3")
+M("C01", "threshold-above-one", CONT,
+  """        chosen_alignments_ids, = np.where(x.value > 0.9)
+
+        chosen_alignments: np.ndarray = possible_unitary_alignments[chosen_alignments_ids]
+        alignments_disorders: np.ndarray = disorders[chosen_alignments_ids]
+
+        from .alignment import UnitaryAlignment, Alignment
+""",
+  """        chosen_alignments_ids, = np.where(x.value > 1.0)
+
+        chosen_alignments: np.ndarray = possible_unitary_alignments[chosen_alignments_ids]
+        alignments_disorders: np.ndarray = disorders[chosen_alignments_ids]
+
+        from .alignment import UnitaryAlignment, Alignment
+""", "R-C01-4")
+M("C01", "sizes-from-reversed-order", CONT,
+  """        for i, units in enumerate(self._annotations.values()):
+            sizes[i] = len(units)
+
+        disorders, possible_unitary_alignments = dissimilarity.valid_alignments(self)
+        # Definition of the integer linear program
+        n = len(disorders)
+        # Constraints matrix ("every unit must appear once and only once")
+        A = build_A(possible_unitary_alignments, sizes)
+
+        x = cp.Variable(shape=(n,), boolean=True)
+        try:
+            import cylp
+            cp.Problem(cp.Minimize(disorders.T @ x), [A @ x == 1])""",
+  """        for i, units in enumerate(reversed(self._annotations.values())):
+            sizes[i] = len(units)
+
+        disorders, possible_unitary_alignments = dissimilarity.valid_alignments(self)
+        # Definition of the integer linear program
+        n = len(disorders)
+        # Constraints matrix ("every unit must appear once and only once")
+        A = build_A(possible_unitary_alignments, sizes)
+
+        x = cp.Variable(shape=(n,), boolean=True)
+        try:
+            import cylp
+            cp.Problem(cp.Minimize(disorders.T @ x), [A @ x == 1])""", "R-C01-3")
+M("C01", "slice-keeps-all-empty-candidate", DIS, FINAL, "        disorders, alignments = disorders[:i_chosen], alignments[:i_chosen]", "R-C01-5")
+M("C01", "decoder-uses-first-annotator-units", CONT,
+  """                annotator, units = self._annotations.peekitem(annotator_id)
+                try:
+                    unit = units[unit_id]
+                    u_align_tuple.append((annotator, unit))
+                except IndexError:  # it's a "null unit"
+                    u_align_tuple.append((annotator, None))
+            unitary_alignment = UnitaryAlignment(list(u_align_tuple))
+            unitary_alignment.disorder = alignments_disorders[alignment_id]
+            set_unitary_alignements.append(unitary_alignment)
+        return Alignment(""",
+  """                annotator, units = self._annotations.peekitem(annotator_id)
+                try:
+                    unit = self._annotations.peekitem(0)[1][unit_id]
+                    u_align_tuple.append((annotator, unit))
+                except IndexError:  # it's a "null unit"
+                    u_align_tuple.append((annotator, None))
+            unitary_alignment = UnitaryAlignment(list(u_align_tuple))
+            unitary_alignment.disorder = alignments_disorders[alignment_id]
+            set_unitary_alignements.append(unitary_alignment)
+        return Alignment(""", "R-C01-4", "foreign unit placed in a slot")
+M("C01", "x-not-boolean", CONT,
+  """        x = cp.Variable(shape=(n,), boolean=True)
+        try:
+            import cylp
+            cp.Problem(cp.Minimize(disorders.T @ x), [A @ x == 1])""",
+  """        x = cp.Variable(shape=(n,), nonneg=True)
+        try:
+            import cylp
+            cp.Problem(cp.Minimize(disorders.T @ x), [A @ x == 1])""", "R-C01-1")
+M("C01", "unguarded-label-index", DIS,
+  """        if annotation is None:
+            if self.categories is not None:
+                raise ValueError("Units without annotation cannot be used with a dissimilarity "
+                                 "that is defined over a set of categories.")
+            return len(categories)
+        return categories.index(annotation)""",
+  """        return categories.index(annotation)""", "R-C01-6")
+B("C01", "partition-as-two-inequalities", CONT, CBC_BEST,
+  "            cp.Problem(cp.Minimize(disorders.T @ x), [A @ x >= 1, A @ x <= 1]).solve(solver=cp.CBC)")
+B("C01", "matmul-alias-in-cbc-branch", CONT, CBC_BEST,
+  "            covered = A @ x\n            cp.Problem(cp.Minimize(disorders.T @ x), [covered == 1]).solve(solver=cp.CBC)")
+B("C01", "problem-object-then-solve", CONT, GLPK_BEST,
+  "            problem = cp.Problem(cp.Minimize(disorders.T @ x), [1 <= matmul, matmul <= 1])\n            problem.solve(solver=cp.GLPK_MI)")
+M("C02", "maximize", CONT, CBC_BEST, "            cp.Problem(cp.Maximize(disorders.T @ x), [A @ x == 1]).solve(solver=cp.CBC)", "R-C02-1")
+M("C02", "glpk-maximize", CONT, GLPK_BEST,
+  "            cp.Problem(cp.Maximize(disorders.T @ x), [1 <= matmul, matmul <= 1]).solve(solver=cp.GLPK_MI)", "R-C02-1")
+M("C02", "criterium-c2n-delta", DIS, "        criterium = c2n * delta_empty * nb_annotators", "        criterium = c2n * delta_empty", "R-C02-2")
+M("C02", "filter-strict", DIS, "            if disorder <= criterium:", "            if disorder < criterium:", "R-C02-2")
+M("C02", "transposed-matrix-indices", DIS,
+  """                    disorder += precomputation[annot_a][annot_b][unitary_alignment[annot_a],
+                                                                 unitary_alignment[annot_b]]""",
+  """                    disorder += precomputation[annot_a][annot_b][unitary_alignment[annot_b],
+                                                                 unitary_alignment[annot_a]]""", "R-C02-3")
+M("C02", "self-pairs", DIS,
+  "            for annot_a in range(nb_annotators):\n                for annot_b in range(annot_a):\n                    disorder +=",
+  "            for annot_a in range(nb_annotators):\n                for annot_b in range(annot_a + 1):\n                    disorder +=", "R-C02-3")
+M("C02", "empty-row-zero", DIS, "                    matrix[nb_annot_a, annot_b] = delta_empty", "                    matrix[nb_annot_a, annot_b] = 0", "R-C02-4")
+M("C02", "real-cells-wrong-annotator", DIS,
+  """                        matrix[annot_a, annot_b] = d_mat(unit_arrays[annotator_a][annot_a],
+                                                         unit_arrays[annotator_b][annot_b])""",
+  """                        matrix[annot_a, annot_b] = d_mat(unit_arrays[annotator_a][annot_a],
+                                                         unit_arrays[annotator_a][annot_b])""", "R-C02-4")
+M("C02", "odometer-reset-one", NUM, "            current[i] = 0\n        else:", "            current[i] = 1\n        else:", "R-C02-5")
+M("C02", "disorders-of-other-ids", CONT,
+  """        alignments_disorders: np.ndarray = disorders[chosen_alignments_ids]
+
+        from .alignment import UnitaryAlignment, Alignment
+""",
+  """        alignments_disorders: np.ndarray = disorders[:len(chosen_alignments_ids)]
+
+        from .alignment import UnitaryAlignment, Alignment
+""", "R-C02-6")
+B("C02", "objective-without-transpose", CONT, CBC_BEST,
+  "            cp.Problem(cp.Minimize(disorders @ x), [A @ x == 1]).solve(solver=cp.CBC)")
+M("C08", "handler-swallows", CONT,
+  """            logging.warning("CBC solver not installed. Using GLPK.")
+            matmul = A @ x
+""" + GLPK_BEST,
+  """            logging.warning("CBC solver not installed. Using GLPK.")
+            pass""", "R-C08-1")
+M("C08", "handler-only-importerror", CONT,
+  """            cp.Problem(cp.Minimize(disorders.T @ x), [A @ x == 1]).solve(solver=cp.CBC)
+        except (ImportError, cp.SolverError):""",
+  """            cp.Problem(cp.Minimize(disorders.T @ x), [A @ x == 1]).solve(solver=cp.CBC)
+        except ImportError:""", "R-C08-2")
+M("C08", "soft-glpk-partition", CONT, GLPK_SOFT,
+  "            cp.Problem(cp.Minimize(disorders.T @ x), [A @ x == 1]).solve(solver=cp.GLPK_MI)", "R-C08-1")
+M("C08", "glpk-handler-uses-cbc-again", CONT, GLPK_BEST,
+  "            cp.Problem(cp.Minimize(disorders.T @ x), [1 <= matmul, matmul <= 1]).solve(solver=cp.CBC)", "R-C08-2")
+B("C08", "except-exception-fallback", CONT,
+  """            cp.Problem(cp.Minimize(disorders.T @ x), [A @ x == 1]).solve(solver=cp.CBC)
+        except (ImportError, cp.SolverError):""",
+  """            cp.Problem(cp.Minimize(disorders.T @ x), [A @ x == 1]).solve(solver=cp.CBC)
+        except Exception:""")
+M("C11", "soft-cbc-partition", CONT, CBC_SOFT,
+  "            cp.Problem(cp.Minimize(disorders.T @ x), [A @ x == 1]).solve(solver=cp.CBC)", "R-C11-1")
+M("C11", "soft-glpk-ge-zero", CONT, GLPK_SOFT,
+  "            cp.Problem(cp.Minimize(disorders.T @ x), [A @ x >= 0]).solve(solver=cp.GLPK_MI)", "R-C11-1")
+M("C11", "soft-at-most-once", CONT, CBC_SOFT,
+  "            cp.Problem(cp.Minimize(disorders.T @ x), [A @ x <= 1]).solve(solver=cp.CBC)", "R-C11-1")
+M("C11", "soft-returns-alignment", CONT,
+  """        return SoftAlignment(set_unitary_alignements,""", """        return Alignment(set_unitary_alignements,""", "R-C11-2")
+M("C11", "soft-cache-without-avg", CONT,
+  """                             check_validity=False,
+                             disorder=np.sum(alignments_disorders) / self.avg_num_annotations_per_annotator)
+
+    def get_first_window""",
+  """                             check_validity=False,
+                             disorder=np.sum(alignments_disorders))
+
+    def get_first_window""", "R-C11-2")
+M("C11", "soft-threshold-differs", CONT,
+  """        chosen_alignments_ids, = np.where(x.value > 0.9)
+
+        chosen_alignments: np.ndarray = possible_unitary_alignments[chosen_alignments_ids]
+        alignments_disorders: np.ndarray = disorders[chosen_alignments_ids]
+
+        from .alignment import UnitaryAlignment, SoftAlignment
+""",
+  """        chosen_alignments_ids, = np.where(x.value > 0.0)
+
+        chosen_alignments: np.ndarray = possible_unitary_alignments[chosen_alignments_ids]
+        alignments_disorders: np.ndarray = disorders[chosen_alignments_ids]
+
+        from .alignment import UnitaryAlignment, SoftAlignment
+""", "R-C11-2")
+B("C11", "soft-cover-written-reversed", CONT, CBC_SOFT,
+  "            cp.Problem(cp.Minimize(disorders.T @ x), [1 <= A @ x]).solve(solver=cp.CBC)")
